@@ -47,8 +47,8 @@ OBLIGATIONS = (
     + split(TH("remabsent", "OP_REM_ABSENT", 5, Q, replace_calls=STUB, mem=6), (3,))
     + split(TH("getabsent", "OP_GET_ABSENT", 5, Q, mem=6), (4,))
     + [T("iter", "OP_ITER", 5, Q, mem=6), T("del", "OP_DEL", 5, Q, mem=6), T("mark", "OP_MARK", 5, Q, mem=6), T("resize", "OP_RESIZE", 5, Q, replace_calls=STUB, mem=6),
-       T2("rehash.1to5", "OP_REHASH", 1, TH_, ["NS2=5", "HBITS=3"], ns2=5, mem=8, timeout=3600),
-       T2("rehash.5to1", "OP_REHASH", 5, TH_, ["NS2=1", "HBITS=3"], mem=8, timeout=3600),
+       T2("rehash.1to5", "OP_REHASH", 1, P, ["NS2=5", "HBITS=3"], ns2=5, mem=8, timeout=3600),
+       T2("rehash.5to1", "OP_REHASH", 5, P, ["NS2=1", "HBITS=3"], mem=8, timeout=3600),
        T2("clearset", "OP_CLEAR_SET", 5, Q, ["HOME=0"], mem=6)]
     # thorough: 11-slot tables (every home slot), growth/shrink rehashes between 5 and 11 slots with 6-bit hashes
     # (all residue pairs modulo 5 and 11), and the 5-slot steps again with unrestricted 64-bit hash values
@@ -56,9 +56,9 @@ OBLIGATIONS = (
     + TH("rem", "OP_REM", 11, P, replace_calls=STUB, timeout=3600, mem=16, d=11)
     + [o_ for o_ in TH("get", "OP_GET", 11, TH_, timeout=3600, mem=16, d=11) if o_.name.split(".")[2] in ("home0", "home5", "home10")]
     + [T("iter", "OP_ITER", 11, TH_, timeout=3600, mem=16, d=11),
-       T2("rehash.5to11", "OP_REHASH", 5, TH_, ["NS2=11", "HBITS=6"], ns2=11, timeout=7200, mem=24),
-       T2("rehash.11to5", "OP_REHASH", 11, TH_, ["NS2=5", "HBITS=6"], timeout=7200, mem=24, d=11)]
-    + [T2("set.h64.home%d" % h, "OP_SET", 5, TH_, ["HOME=%d" % h, "HFULL"], replace_calls=STUB, timeout=3600, mem=16) for h in range(5)]
+       T2("rehash.5to11", "OP_REHASH", 5, P, ["NS2=11", "HBITS=6"], ns2=11, timeout=7200, mem=24),
+       T2("rehash.11to5", "OP_REHASH", 11, P, ["NS2=5", "HBITS=6"], timeout=7200, mem=24, d=11)]
+    + [T2("set.h64.home%d" % h, "OP_SET", 5, P, ["HOME=%d" % h, "HFULL"], replace_calls=STUB, timeout=3600, mem=16) for h in range(5)]
 )
 _show = T("show", "OP_SHOW", 5, Q, mem=6, replace_calls=["print_to_with:v_print_rec"]); _show.unwindset = list(_show.unwindset) + ["v_print_rec.0:14"]
 OBLIGATIONS = list(OBLIGATIONS) + [_show]
@@ -68,6 +68,14 @@ def TA(m, tiers):
               replace_calls=["len:v2_len", "get:v2_get", "implements_method_at_offset:v2_implements", "key_type:v2_key_type", "val_type:v2_val_type"],
               checks=["bounds", "pointer", "div0"], tiers=tiers, timeout=1800, mem_gb=10, desc="Table assign onto an arbitrary valid 5-slot Table from an abstract source with %d entries (arbitrary hashes and values)" % m)
 OBLIGATIONS = list(OBLIGATIONS) + [TA(0, Q), TA(1, Q), TA(2, Q), TA(3, TH_ if "TH_" in dir() else ("thorough",))]
+# the rehash in assume-guarantee form (harness/C02/table_rehash_calls.c): Table_Rehash over a recorder of its kernel, and the kernel with move = true
+def RH(ns, ns2):
+    return Ob("table.rehash_calls.%dto%d" % (ns, ns2), "C02/table_rehash_calls.c", defs=["NS=%d" % ns, "NS2=%d" % ns2, "OP=0", "CASE=1", "ELEM_D=6"], replace=["Table.c"], unwind=max(ns, ns2) + 3,
+              unwindset=[x for x in US(ns, ns2) if not x.startswith("harness.")] + ["harness.%d:%d" % (i_, 12 * max(ns, ns2) + 4) for i_ in range(8)] + ["Table_Rehash.0:%d" % (ns + 2)],
+              replace_calls=["Table_Set_Move:v_set_move_rec"], checks=["bounds", "pointer", "div0"], tiers=Q, timeout=900, mem_gb=8, desc="Table_Rehash %d -> %d over a recorder of Table_Set_Move: fresh storage, every entry handed over once as a move, old storage released" % (ns, ns2))
+OBLIGATIONS += [RH(5, 11), RH(5, 1), RH(1, 5), RH(11, 5),
+                Ob("table.setmove_move.ns5", "C02/table_rehash_calls.c", defs=["NS=5", "OP=0", "CASE=2", "ELEM_D=6"], replace=["Table.c"], unwind=8, unwindset=US(5, 5), checks=["bounds", "pointer", "div0"], tiers=Q, timeout=1800, mem_gb=8,
+                   desc="Table_Set_Move with move = true (the rehash kernel): whole key and (wider) value moved with their tokens")]
 LEVEL_TEXT = ("Bounded model checking of the real Table.c: every operation is executed symbolically from an ARBITRARY valid slot layout "
               "(occupancy, keys, values, probe distances, wrap-around, uninterpreted hash function) -- one inductive step per operation and per home slot, "
               "so operation histories of any length are covered for the slot counts explored (1 and 5 quick; 11 thorough), plus the constructor as base case "
